@@ -11,8 +11,8 @@ package main
 
 import (
 	"fmt"
-	"go/ast"
 	"math/rand"
+	"os"
 	"strings"
 )
 
@@ -418,9 +418,13 @@ func (g *c39gn) declIfaceEmbedded() []c39form {
 	g.f.defect = "embedded-interface-parse-panic"
 	g.f.tags = append(g.f.tags, "embedded-interface")
 	g.use(fmt.Sprintf("func() int { var k %s = %s(4); return k.Get() + len(k.Error()) }()", K, A))
+	kdesc := "T:" + K
+	if !c39parserTakesEmbedded() {
+		kdesc = "FAIL" // the descriptor says what the parser returns for the chunk: here it panics
+	}
 	return []c39form{
 		{desc: "T:" + J, src: "type " + J + " interface {\n\tGet() int\n}"},
-		{desc: "T:" + K, src: "type " + K + " interface {\n\t" + J + "\n\terror\n}"},
+		{desc: kdesc, src: "type " + K + " interface {\n\t" + J + "\n\terror\n}"},
 		{desc: "T:" + A, src: "type " + A + " int"},
 		{desc: "M:" + A + ".Get", src: "func (a " + A + ") Get() int { return int(a) }"},
 		{desc: "M:" + A + ".Error", src: "func (a " + A + ") Error() string { return \"err\" }"},
@@ -562,23 +566,36 @@ var c39spliceProbe = -1
 func c39macroDeclTok(whole, naked string) string {
 	if c39spliceProbe < 0 {
 		c39spliceProbe = 1
-		func() {
-			defer func() { recover() }()
-			ir := newQuietInterp()
-			evalSrc(ir, "import \"go/ast\"")
-			evalSrc(ir, "macro c39probe() ast.Node { return ~\"{const c39probeC = 1} }")
-			form, _ := ir.Comp.MacroExpandCodewalk(ir.Comp.Parse("c39probe"))
-			if form != nil {
-				if _, isSpec := form.Interface().(*ast.ValueSpec); !isSpec {
-					c39spliceProbe = 0
-				}
+		f := &c39file{name: "probe", pkg: "probe", valid: true}
+		f.chunks = [][]c39form{{{src: "package probe"}}, {{src: ":import \"go/ast\""}},
+			{{src: ":macro c39probe() ast.Node {\n\treturn ~\"{const c39probeC = 1}\n}"}}, {{src: "c39probe"}}}
+		dir := workDir("C39probe")
+		if _, err := c39preprocess(dir, []*c39file{f}, dir+"/probe.gomacro", []string{"-m", "-w", "-f"}); err == nil {
+			if out, err := os.ReadFile(dir + "/probe.go"); err == nil && strings.Contains(string(out), "const c39probeC") {
+				c39spliceProbe = 0
 			}
-		}()
+		}
 	}
 	if c39spliceProbe == 1 {
 		return naked
 	}
 	return whole
+}
+
+var c39embeddedProbe = -1
+
+func c39parserTakesEmbedded() bool {
+	if c39embeddedProbe < 0 {
+		c39embeddedProbe = 0
+		func() {
+			defer func() { recover() }()
+			ir := newQuietInterp()
+			if ir.Comp.ParseBytes([]byte("type c39probeK interface { error }")) != nil {
+				c39embeddedProbe = 1
+			}
+		}()
+	}
+	return c39embeddedProbe == 1
 }
 
 func (g *c39gn) defMacro(name, def string) {
